@@ -15,6 +15,7 @@ import (
 	"os/exec"
 	"path/filepath"
 	"regexp"
+	"runtime/pprof"
 	"sort"
 	"strconv"
 	"strings"
@@ -231,7 +232,9 @@ func main() {
 	}
 	switch os.Args[1] {
 	case "run":
-		os.Exit(cmdRun(os.Args[2:]))
+		code := cmdRun(os.Args[2:])
+		pprof.StopCPUProfile()
+		os.Exit(code)
 	case "replay":
 		os.Exit(cmdReplay(os.Args[2:]))
 	case "selftest":
@@ -258,6 +261,12 @@ func cmdRun(args []string) int {
 	if rc.prop == "" {
 		fmt.Fprintln(os.Stderr, "--prop required")
 		return 2
+	}
+	if p := os.Getenv("VX_CPUPROFILE"); p != "" {
+		if f, err := os.Create(p); err == nil {
+			pprof.StartCPUProfile(f)
+			defer pprof.StopCPUProfile()
+		}
 	}
 	if rc.timeout == 0 {
 		if rc.tier == "thorough" {
